@@ -46,8 +46,9 @@ pub enum JCmd {
 }
 
 fn nm(i: u8) -> String {
-    let base = ["a", "orders", "x".repeat(40).as_str(), "Stream-Name_01", "t"][i as usize % 5].to_string();
-    format!("{base}{}", i / 5)
+    // (one name in six is not ASCII: byte length != character count)
+    let base = ["a", "orders", "x".repeat(40).as_str(), "Stream-Name_01", "t", "zam\u{f3}wienia-\u{142}\u{f3}d\u{17a}"][i as usize % 6].to_string();
+    format!("{base}{}", i / 6)
 }
 
 fn build(c: &JCmd) -> EntryCommand {
@@ -513,6 +514,32 @@ impl Engine for Sched {
             let gu: Vec<u32> = got.iter().map(|x| x.0).collect();
             out.failure = Some(fail("journal-differs-from-acknowledged", format!("acknowledged appliers (by tag) {:?}, journal holds {:?}", wu, gu)));
             return out;
+        }
+        // what was journalled must decode (start-up decodes it) to a command that survives its own encoder and
+        // decoder: a name cut by a wrong length prefix decodes to ANOTHER command or not at all
+        for (i, e) in es.iter().enumerate().skip(case.preload as usize) {
+            let dec = std::panic::catch_unwind(std::panic::AssertUnwindSafe(|| EntryCommand::from_bytes(e.command.clone())));
+            match dec {
+                Ok(Ok(c)) => {
+                    // value-level round trip (byte-level would depend on the iteration order of permission maps)
+                    let again = std::panic::catch_unwind(std::panic::AssertUnwindSafe(|| EntryCommand::from_bytes(c.to_bytes())));
+                    let same = matches!(&again, Ok(Ok(c2)) if *c2 == c);
+                    if !same {
+                        let _ = take_panics();
+                        out.failure = Some(fail("journalled-command-does-not-round-trip", format!("entry {i} decodes to {:?}, which does not survive its own encoder and decoder", c)));
+                        return out;
+                    }
+                }
+                Ok(Err(err)) => {
+                    out.failure = Some(fail("journalled-command-undecodable", format!("entry {i} cannot be decoded at start-up: {err}")));
+                    return out;
+                }
+                Err(_) => {
+                    let _ = take_panics();
+                    out.failure = Some(fail("journalled-command-undecodable", format!("decoding entry {i} panics")));
+                    return out;
+                }
+            }
         }
         // a later command must still be accepted and replayed
         let later = rt.block_on(async { fs.apply(7, build(&JCmd::CreateStream { id: Some(999), name: 3 })).await });
